@@ -535,4 +535,21 @@ def toyPy : PyReg where
   unknown_enc := by intro n e d h; simp [h]
   unknown_dec := by intro n e x h; simp [h]
 
+/-- `contentOf` with the uncached decoder result supplied from outside (`fresh` = `custom_decode[ce.lower()](raw)` resp.
+    `codecs.decode`; unused for identity names, empty / absent headers and a missing body) — the form the driver can
+    run; `contentOf_eq_with` (Props) identifies the two -/
+def contentOfWith (m : Msg) (strict : Bool) (fresh : Res) : Res :=
+  match m.raw with
+  | none => .nil
+  | some raw =>
+    match m.ce with
+    | none => .ok raw
+    | some ce =>
+      if ce.isEmpty then .ok raw
+      else match (if identityDec.contains (asciiLower ce) then Res.ok raw else fresh) with
+        | .ok d => .ok d
+        | .str => if strict then .verr else .ok raw
+        | .verr => if strict then .verr else .ok raw
+        | _ => .terr
+
 end MitmVerif.C31
